@@ -36,8 +36,8 @@ constexpr auto adjacent_difference(InputIt first, InputIt last, OutputIt destina
 template <typename InputIt, typename OutputIt>
 constexpr auto adjacent_difference(InputIt first, InputIt last, OutputIt destination) -> OutputIt
 {
-    using value_t = typename etl::iterator_traits<InputIt>::value_type;
-    return etl::adjacent_difference(first, last, destination, etl::minus<value_t>());
+    // [adjacent.difference]: `val - acc` is evaluated as written (after the usual promotions), not in the value type
+    return etl::adjacent_difference(first, last, destination, etl::minus<>());
 }
 
 } // namespace etl
